@@ -1,7 +1,7 @@
 (* C01 — the server frames and orders requests exactly as the wire says (framing core). *)
 From Coq Require Import String.
 From Coq Require Import List Strings.Byte NArith ZArith Bool Arith.
-Require Import Bytes Show Tables Codec Chunk ChunkProofs TrailerKeys HeaderNameProofs Range RangeProofs DecProofs.
+Require Import Bytes Show Tables Codec Chunk ChunkProofs TrailerKeys HeaderNameProofs Range RangeProofs DecProofs HeaderScan HeaderScanProofs.
 Import ListNotations.
 
 (* Chunked framing: for EVERY list of non-empty chunks (any sizes below 16^15, any contents —
@@ -30,6 +30,30 @@ Theorem C01_only_framing_names : forall name ref : bs,
   ci_compare name ref = true <-> map ascii_lower name = map ascii_lower ref.
 Proof. exact ci_compare_spec. Qed.
 Print Assumptions C01_only_framing_names.
+
+(* The header scanner (ext.HeaderScanner.Next, compared with `hs_next` on every generated block by unit
+   c01.scanner).  For EVERY list of fields whose names are non-empty, hold no ':' or LF and do not
+   start with a blank, and whose values hold no CR or LF and neither start nor end with a space:
+   scanning the block a serialiser writes for them (`name: value CRLF` per field, then the empty
+   line) returns exactly these fields in order, names in canonical case, and stops at the first
+   byte after the empty line — whatever follows. *)
+Theorem C01_scanner_reads_back_a_rendered_block : forall (fs : list (bs * bs)) (body : bs) (fuel : nat),
+  Forall field_ok fs -> (length fs < fuel)%nat ->
+  scan_all fuel (render_block fs ++ body) = SFields (map (fun kv => (normalize_header_key (fst kv), snd kv)) fs) body.
+Proof. exact block_reads_back. Qed.
+Print Assumptions C01_scanner_reads_back_a_rendered_block.
+
+Theorem C01_field_line_reads_back : forall k v rest,
+  k <> [] -> ~ In COLON k -> ~ In LF k ->
+  ~ In CR v -> ~ In LF v -> no_lead_sp v -> no_trail_sp v -> starts_plain rest ->
+  hs_next (k ++ [COLON; SPC] ++ v ++ CRLF ++ rest) = NField (normalize_header_key k) v rest.
+Proof. exact field_line_reads_back. Qed.
+Print Assumptions C01_field_line_reads_back.
+
+Example C01_scanner_nonvacuous :
+  header_scan [B "host: h" ++ CRLF ++ B "X-Fold: a" ++ CRLF ++ B "  b" ++ CRLF ++ CRLF ++ B "body"] =
+  B "OK 486f7374=68;582d466f6c64=61202062 | 27".
+Proof. vm_compute. reflexivity. Qed.
 
 Example C01_nonvacuous :
   enchunk [B "ab"; B "0" ++ CRLF ++ CRLF ++ B "GET /evil"] = B "2" ++ CRLF ++ B "ab" ++ CRLF ++ B "e" ++ CRLF ++ B "0" ++ CRLF ++ CRLF ++ B "GET /evil" ++ CRLF ++ B "0" ++ CRLF
